@@ -794,6 +794,12 @@ func (w *schedWorld) stuck(sim *verifsim.Sim, stop verifsim.Stop, phase string) 
 			waiting = append(waiting, fmt.Sprintf("request %d (%s)", r.id, filepath.Base(r.m.ModelPath)))
 		}
 	}
+	if full := w.blockedOnFullEventChannel(sim); full != "" {
+		_, detail := sim.BlockedSummary()
+		w.violate("C02", "event-channel-full", "stuck:event-channel-full:"+full, "scheduler stuck during %s (%s) with internal event channel(s) %s full (their capacity is OLLAMA_MAX_QUEUE=%d) and a sender blocked on it while holding runner locks; unanswered: %v\n%s",
+			phase, stop, full, w.cfg.maxQueue, waiting, detail)
+		return
+	}
 	if cyc := sim.LockCycle(); cyc != nil {
 		sig, detail := sim.DeadlockSignature(cyc)
 		w.violate("C02", "deadlock", sig, "scheduler deadlocked during %s (%s); unanswered: %v\n%s", phase, stop, waiting, detail)
@@ -817,6 +823,23 @@ func (w *schedWorld) stuck(sim *verifsim.Sim, stop verifsim.Stop, phase string) 
 	if len(waiting) > 0 {
 		w.violate("C02", "lost-wakeup", "no-reply:"+strings.Join(sortedStrings(repo), "|"), "%s: %d request(s) that were not cancelled never received a reply (%s): %v\n%s", phase, len(waiting), stop, waiting, detail)
 	}
+}
+
+// blockedOnFullEventChannel: an internal event channel is at capacity and some task is
+// blocked in something other than a lock (i.e. in a channel send): that sender holds
+// whatever locks it holds for ever, so lock waits behind it (including a wait on a lock
+// the waiter itself took and handed to the load goroutine) are consequences, not causes.
+func (w *schedWorld) blockedOnFullEventChannel(sim *verifsim.Sim) string {
+	full := w.fullEventChannels()
+	if full == "" {
+		return ""
+	}
+	for _, t := range sim.Blocked() {
+		if !t.WaitingForLock() {
+			return full
+		}
+	}
+	return ""
 }
 
 // fullEventChannels names the scheduler's internal event channels that are at capacity.
@@ -893,6 +916,11 @@ func (w *schedWorld) drain(sim *verifsim.Sim, res *verifsim.Result) {
 		return
 	}
 	if len(sim.Violations()) > 0 {
+		return
+	}
+	if full := w.blockedOnFullEventChannel(sim); full != "" {
+		_, detail := sim.BlockedSummary()
+		w.violate("C02", "event-channel-full", "stuck:event-channel-full:"+full, "scheduler stuck during drain (%s) with internal event channel(s) %s full (their capacity is OLLAMA_MAX_QUEUE=%d) and a sender blocked on it\n%s", stop, full, w.cfg.maxQueue, detail)
 		return
 	}
 	if cyc := sim.LockCycle(); cyc != nil {
